@@ -14,7 +14,6 @@ import argparse, fcntl, hashlib, json, os, random, re, subprocess, sys, time
 VERIF = os.path.dirname(os.path.dirname(os.path.dirname(os.path.abspath(__file__))))
 REPO = os.environ.get("VERIF_REPO", "/repo")
 LEAN = os.path.join(VERIF, "lean")
-DRIVER = os.path.join(LEAN, ".lake", "build", "bin", "qgdriver")
 PY_REPO = "/venv/bin/python"          # interpreter that can import quantum_gates and its dependencies
 PY_TOOLS = "python3-vt"               # interpreter with sympy / mpmath (never imports the repo)
 ALLOWED_AXIOMS = {"propext", "Classical.choice", "Quot.sound"}
@@ -146,7 +145,7 @@ def theorems_in(mod):
     return names
 
 
-def lean_check(mod, tier="quick", extra_targets=("qgdriver",), leanchecker=None):
+def lean_check(mod, tier="quick", extra_targets=(), leanchecker=None):
     """build `mod` (a QG.Props.* module), audit sources and axioms; never raises"""
     res = LeanResult()
     t0 = time.time()
@@ -237,14 +236,17 @@ def lean_check(mod, tier="quick", extra_targets=("qgdriver",), leanchecker=None)
 class Driver:
     """batch interface to the native Lean model driver (line protocol, JSON per line)"""
 
-    def __init__(self):
-        if not os.path.exists(DRIVER):
-            with LakeLock():
-                run_cmd(["lake", "build", "qgdriver"], cwd=LEAN, timeout=3000)
+    def __init__(self, pid):
+        self.exe = "drv_" + pid.lower()
+        self.path = os.path.join(LEAN, ".lake", "build", "bin", self.exe)
+        with LakeLock():                      # no-op when up to date; rebuilds when a model file changed
+            rc, out, _ = run_cmd(["lake", "build", self.exe], cwd=LEAN, timeout=3000)
+        if rc != 0:
+            raise RuntimeError("model driver does not build:\n" + out[-2000:])
 
     def batch(self, requests, timeout=1800):
         data = "".join(json.dumps(r, separators=(",", ":")) + "\n" for r in requests)
-        p = subprocess.run([DRIVER], input=data, capture_output=True, text=True, timeout=timeout)
+        p = subprocess.run([self.path], input=data, capture_output=True, text=True, timeout=timeout)
         lines = p.stdout.splitlines()
         if p.returncode != 0 or len(lines) != len(requests):
             raise RuntimeError(f"model driver failed rc={p.returncode} answers={len(lines)}/{len(requests)} {p.stderr[-500:]}")
